@@ -276,12 +276,14 @@ Definition ticks_exact (t : ticks_res) (st : Z) (tolv : Q -> Q) (major : list xr
   end.
 
 (* CountTicks returns int(lastN - firstN + 1) computed in float64, saturated at maxInt = 2^63 - 1
-   (linear.go CountTicks): compared exactly up to 10^6 ticks (where the tick list is compared too);
-   beyond that - levels far below the natural one - the two float quotients are rounded
-   (their magnitude is up to 1e3 times the count): |difference| <= 2 + 1e-9 count allowed *)
+   (linear.go CountTicks): compared exactly up to 1000 ticks (where the tick list is compared too,
+   with the admissible set for a floor/ceil within rounding of an integer); beyond that - levels
+   far below the natural one - each of the two floor/ceil may fall either way and the two float
+   quotients are rounded (their magnitude is up to 1e3 times the count):
+   |difference| <= 2 + 1e-9 count allowed *)
 Definition count_ok (c obs : Z) : bool :=
   let cs := Z.min c MAXINT in
-  (obs =? cs)%Z || ((1000000 <? c)%Z && (Z.abs (obs - cs) <=? 2 + c / 1000000000)%Z).
+  (obs =? cs)%Z || ((1000 <? c)%Z && (Z.abs (obs - cs) <=? 2 + c / 1000000000)%Z).
 (* status 3 = the harness did not call TicksAtLevel (it does so when CountTicks reports more than
    2000 ticks): accepted only where the MODEL's count exceeds 1000; otherwise a tick list of
    exactly the model's count is demanded and compared *)
